@@ -3,7 +3,7 @@ CONSTANTS
   Git = FALSE
   Ctxs <- CtxsNoGit
   NameClasses <- AllNameClasses
-  Types = {"text", "binary", "empty", "symlink"}
+  Types = {"text", "binary", "empty", "symlink", "special"}
   Wants = {"none"}
   SampleN = 0
 SPECIFICATION Spec
